@@ -18,8 +18,11 @@ tvars == <<grad, store, nextId, val, hist, pre0, ep, pos, nAcc, nRej>>
 E  == Episodes[ep]
 Ev == E.events[pos]
 SeqToSet(s) == {s[i] : i \in DOMAIN s}
+\* logged per-leaf arrays are positional, in increasing leaf order
+GradLeafSeq == <<1, 2, 3, 4, 5, 14, 15>>
+PosOf(l) == CHOOSE i \in DOMAIN GradLeafSeq : GradLeafSeq[i] = l
 
-TInit == /\ grad = [l \in GradLeaves |-> None] /\ store = [l \in GradLeaves |-> 0] /\ nextId = 10
+TInit == /\ grad = [l \in GradLeaves |-> None] /\ store = [l \in GradLeaves |-> 0] /\ nextId = 20
          /\ val = Vals(P0) /\ hist = <<>> /\ pre0 = {}
          /\ ep = 1 /\ pos = 0 /\ nAcc = 0 /\ nRej = 0
 
@@ -27,7 +30,7 @@ Load == /\ ep <= NEp /\ pos = 0
         /\ pre0' = SeqToSet(E.pre)
         /\ grad' = [l \in GradLeaves |-> IF l \in SeqToSet(E.pre) THEN PreContent(l) ELSE None]
         /\ store' = [l \in GradLeaves |-> IF l \in SeqToSet(E.pre) THEN l ELSE 0]
-        /\ nextId' = 10 /\ hist' = <<>> /\ pos' = 1
+        /\ nextId' = 20 /\ hist' = <<>> /\ pos' = 1
         /\ UNCHANGED <<val, ep, nAcc, nRej>>
 
 TheAction == CASE Ev.act = "call"    -> Call(Ev.i)
@@ -36,8 +39,8 @@ TheAction == CASE Ev.act = "call"    -> Call(Ev.i)
                [] Ev.act = "edit"    -> EditGrad(Ev.i)
                [] Ev.act = "replace" -> ReplaceGrad(Ev.i)
 
-Observed == /\ \A l \in GradLeaves : grad'[l] = Ev.grad[l]
-            /\ \A l \in GradLeaves : (store'[l] = store[l]) = Ev.same[l]
+Observed == /\ \A l \in GradLeaves : grad'[l] = Ev.grad[PosOf(l)]
+            /\ \A l \in GradLeaves : (store'[l] = store[l]) = Ev.same[PosOf(l)]
             /\ Ev.distinct /\ Ev.vals
 
 \* which clause fails, evaluated on the successor the module's action prescribes
@@ -60,9 +63,9 @@ ExpGrad(l) == IF Ev.act = "call" THEN (IF l \in Requested(Calls[Ev.i]) THEN Plus
 ExpSame(l) == IF Ev.act = "call" THEN ~(l \in Requested(Calls[Ev.i]) /\ grad[l] = None)
               ELSE IF l # Ev.i THEN TRUE
               ELSE Ev.act \in {"zero", "edit"}
-StepOK == /\ \A l \in GradLeaves : ExpGrad(l) = Ev.grad[l] /\ ExpSame(l) = Ev.same[l]
+StepOK == /\ \A l \in GradLeaves : ExpGrad(l) = Ev.grad[PosOf(l)] /\ ExpSame(l) = Ev.same[PosOf(l)]
           /\ Ev.distinct /\ Ev.vals
-BadLeaf == CHOOSE l \in GradLeaves : ExpGrad(l) # Ev.grad[l] \/ ExpSame(l) # Ev.same[l]
+BadLeaf == CHOOSE l \in GradLeaves : ExpGrad(l) # Ev.grad[PosOf(l)] \/ ExpSame(l) # Ev.same[PosOf(l)]
 
 NextEp(ok) == /\ ep' = ep + 1 /\ pos' = 0
               /\ nAcc' = nAcc + (IF ok THEN 1 ELSE 0) /\ nRej' = nRej + (IF ok THEN 0 ELSE 1)
@@ -70,7 +73,7 @@ NextEp(ok) == /\ ep' = ep + 1 /\ pos' = 0
 StepReject == /\ ep <= NEp /\ pos >= 1 /\ pos <= Len(E.events) /\ ~StepOK
               /\ PrintT(<<"REJECT", ToJson([ep |-> E.ep, at |-> pos,
                     clause |-> IF ~(Ev.distinct /\ Ev.vals) THEN Failing
-                               ELSE IF ExpGrad(BadLeaf) # Ev.grad[BadLeaf]
+                               ELSE IF ExpGrad(BadLeaf) # Ev.grad[PosOf(BadLeaf)]
                                     THEN (IF Ev.act = "call" /\ BadLeaf \notin Requested(Calls[Ev.i])
                                           THEN "grad_of_non_requested_leaf_changed"
                                           ELSE "grad_is_not_previous_grad_plus_update")
